@@ -67,7 +67,7 @@ def chunk (e : Event) : Option (Nat × Option Nat × Bytes) :=
   | _, _ => none
 
 /-- names in order of first occurrence -/
-def firsts (xs : List Nat) : List Nat := xs.foldl (fun acc x => if acc.contains x then acc else acc ++ [x]) []
+def firsts (xs : List Nat) : List Nat := xs.foldl (fun acc x => if x ∈ acc then acc else acc ++ [x]) []
 
 def detailOf (cs : List (Nat × Option Nat × Bytes)) (n : Nat) : Detail :=
   let mine := cs.filter fun c => c.1 == n
